@@ -15,6 +15,7 @@ import Mappy.Model.Schema
 import Mappy.Gen.Patterns
 import Mappy.Model.Cli
 import Mappy.Model.Retype
+import Mappy.Model.Classify
 open Lean Mappy Mappy.Wire
 
 namespace Mappy.Driver
@@ -209,6 +210,21 @@ def transformOp (req : Json) : Except String Json := do
     | some v => pure (Json.mkObj [("ok", ofJ v), ("shape", shape)])
     | none => pure (Json.mkObj [("err", .str "UNSUPPORTED"), ("shape", shape)])
 
+/-- `classify`: is the (real) tree of a printed document in the class of the composed C01 theorem, and with which
+dictionary? -/
+def classifyOp (req : Json) : Except String Json := do
+  let floats ← pairsOf req "floats"
+  let cfg : Transformer.Cfg := { pos := false, com := false, floatOf := fun s => lookupS s floats }
+  let tree ← decodeTree (← req.getObjVal? "tree")
+  -- a document is `start [composite …]`: classify each root block
+  let roots : List Transformer.R := match tree with
+    | .tree _ _ xs => xs
+    | x => [x]
+  let ds := roots.map (RoundTrip.classify cfg 64)
+  if ds.all Option.isSome then
+    pure (Json.mkObj [("in", .bool true), ("d", Json.arr (ds.filterMap (fun d => d.map (fun f => ofJ (.dict f)))).toArray)])
+  else pure (Json.mkObj [("in", .bool false)])
+
 /-! ### validator glue -/
 def decodePathJ (j : Json) : Except String (List DictUtils.PathEl) := do
   match j with
@@ -300,6 +316,7 @@ def handle (op : String) (req : Json) : Except String Json := do
   | "findkey" => pure (resJ (DictUtils.findkey (← getBool req "ci") (← getJ req "d") (← decodePath req "path")))
   | "vrun" => vrunOp req
   | "transform" => transformOp req
+  | "classify" => classifyOp req
   | "messages" => messagesOp req
   | "assign" => assignOp req
   | "errs" => errsOp req
